@@ -28,6 +28,16 @@ Theorem C06_offer_pure : forall ns ex s r s' res o, Inv s -> NoEmpty s ->
 Proof. exact main_offer_pure. Qed.
 Print Assumptions C06_offer_pure.
 
+(* committing a fresh offer gives the same zone, the same updates and the same resulting state as
+   allocating the request directly; the offer itself already announces that zone and those updates *)
+Theorem C06_commit_fresh_eq_allocate : forall ns ex s r s1 reso o sa ra sc rc, Inv s -> NoEmpty s ->
+  get_offer ns ex src_fixes s r = (s1, reso, Some o) ->
+  allocate ns ex src_fixes s r = (sa, ra) -> commit s1 o = (sc, rc) ->
+  rs_kind ra = KOk /\ rs_kind rc = KOk /\ sc = sa /\
+  rs_zone rc = rs_zone ra /\ rs_upd rc = rs_upd ra /\ rs_zone reso = rs_zone ra /\ rs_upd reso = rs_upd ra.
+Proof. exact main_commit_fresh. Qed.
+Print Assumptions C06_commit_fresh_eq_allocate.
+
 (* a refused Commit changes nothing *)
 Theorem C06_commit_refused_noop : forall s o s' res, commit s o = (s', res) -> rs_kind res <> KOk -> s' = s.
 Proof. exact commit_refused_noop. Qed.
